@@ -110,10 +110,11 @@ func (u *User) iteratePaths(cleanPath, permissionType string) (bool, error) {
 		var regexStr string
 		var negate bool
 
-		splitted := strings.Split(permission, ":")
-		if len(splitted) > 1 {
-			typeStr = splitted[0]
-			permission = strings.Join(splitted[1:], ":")
+		// Only a leading word such as "readfiles:" is a permission type prefix. A ':'
+		// inside the regex itself (e.g. "[[:digit:]]") must not be taken for one.
+		if i := strings.Index(permission, ":"); i > 0 && isPermissionType(permission[:i]) {
+			typeStr = permission[:i]
+			permission = permission[i+1:]
 		}
 
 		dlog.Server.Debug(u, cleanPath, typeStr, permission)
@@ -145,4 +146,13 @@ func (u *User) iteratePaths(cleanPath, permissionType string) (bool, error) {
 	}
 
 	return hasPermission, nil
+}
+
+func isPermissionType(str string) bool {
+	for _, r := range str {
+		if r < 'a' || r > 'z' {
+			return false
+		}
+	}
+	return true
 }
